@@ -22,13 +22,27 @@ const NAME_SETS: [[&str; 5]; 4] = [
     ["strx", "stringy", "fltx", "A1", "B_2"],
 ];
 
+/// comparison leaves (kind >= 3): (text template, field value making it true, value making it false)
+const CMP_LEAVES: [(&str, i64, i64); 10] = [
+    ("int(f{}) == 1", 1, 2),
+    ("1 < int(f{})", 2, 0),
+    ("int(f{}) <= 1", 1, 2),
+    ("int(f{}) >= 1", 1, 0),
+    ("int(f{}) < 1", 0, 1),
+    ("int(f{}) > 1", 2, 1),
+    ("1 <= int(f{})", 1, 0),
+    ("1 >= int(f{})", 1, 2),
+    ("1 > int(f{})", 0, 1),
+    ("1 == int(f{})", 1, 0),
+];
+const LEAF_KINDS: u8 = 3 + CMP_LEAVES.len() as u8;
+
 fn leaf_text(pos: usize, kind: u8, names: &[&str; 5]) -> String {
     match kind {
         0 => names[pos].to_string(),
         1 => format!("all({})", names[pos]),
         2 => format!("of({}, 1)", names[pos]),
-        3 => format!("int(f{}) == 1", pos + 1),
-        _ => format!("1 < int(f{})", pos + 1),
+        k => CMP_LEAVES[(k - 3) as usize].0.replace("{}", &(pos + 1).to_string()),
     }
 }
 
@@ -239,7 +253,7 @@ fn trees(k: usize, max_nots: usize) -> Vec<Ast> {
             let t = with_nots(&sh, ns, &mut c);
             out.push(t.clone());
             for pos in 0..k {
-                for kind in 1..5u8 {
+                for kind in 1..LEAF_KINDS {
                     out.push(with_leaf_kind(&t, pos, kind));
                 }
             }
@@ -284,10 +298,8 @@ fn doc_for(a: &Ast, vals: &[i8]) -> MObj {
                     (_, -1) => {}
                     (0..=2, 1) => d.set(&name, s("v")),
                     (0..=2, _) => d.set(&name, s("w")),
-                    (3, 1) => d.set(&name, MVal::Int(1)),
-                    (3, _) => d.set(&name, MVal::Int(2)),
-                    (_, 1) => d.set(&name, MVal::Int(2)),
-                    (_, _) => d.set(&name, MVal::Int(0)),
+                    (k, 1) => d.set(&name, MVal::Int(CMP_LEAVES[(*k - 3) as usize].1)),
+                    (k, _) => d.set(&name, MVal::Int(CMP_LEAVES[(*k - 3) as usize].2)),
                 }
             }
             Ast::Not(x) => go(x, vals, d),
